@@ -750,18 +750,17 @@ impl<T: Config> UdpProtocol<T> {
                 }
             };
 
+            // validate the whole packet before applying any of it: a packet with one malformed
+            // frame is dropped as a whole, not accepted up to the frame before. That includes the
+            // frames we already hold: every later frame is a delta against them.
+            let last_recv_frame = self.last_recv_frame();
+            let mut new_inputs = Vec::new();
             for (i, inp) in recv_inputs.into_iter().enumerate() {
                 let inp_frame = body.start_frame + i as i32;
-                // skip inputs that we don't need
-                if inp_frame <= self.last_recv_frame() {
-                    continue;
-                }
-
                 let input_data = InputBytes {
                     frame: inp_frame,
                     bytes: inp,
                 };
-                // send the input to the session
                 let player_inputs = match input_data.to_player_inputs::<T>(self.handles.len()) {
                     Ok(inputs) => inputs,
                     Err(e) => {
@@ -769,8 +768,17 @@ impl<T: Config> UdpProtocol<T> {
                         return;
                     }
                 };
+                // skip inputs that we don't need
+                if inp_frame <= last_recv_frame {
+                    continue;
+                }
+                new_inputs.push((input_data, player_inputs));
+            }
+
+            for (input_data, player_inputs) in new_inputs {
                 self.recv_inputs.insert(input_data.frame, input_data);
 
+                // send the input to the session
                 for (i, player_input) in player_inputs.into_iter().enumerate() {
                     self.event_queue.push_back(Event::Input {
                         input: player_input,
